@@ -34,10 +34,10 @@ CHECKS = {
   note='Trusted as C04. The identity test of the in-process marker across pickling back ends (finding F12) is outside the model; covered by the real-pool contract test.',
   ref='7 C06'),
  'C07': dict(
-  text='Lean: stp_pulled_bound (pulled <= delivered + buffer_size + 2, tight), stp_queue_bound, lpm_pulled_bound, lpm_started_bound, lpm_queue_bound, lpm_running_bound in every reachable state of every schedule, independent of the source length. Correspondence: recorded pull/start/deliver events of the real code are replayed through the model; oracle: max read-ahead over the event log.',
+  text='Lean: stp_pulled_bound (pulled <= delivered + buffer_size + 2, tight), stp_queue_bound, lpm_pulled_bound, lpm_started_bound, lpm_queue_bound, lpm_running_bound in every reachable state of every schedule, independent of the source length. Correspondence: recorded pull/start/deliver events of the real code are replayed through the model; oracle: max read-ahead over the event log, also through the dataset API (parallel map, batch_map, pool prefetch with and without a catching stage, copies); C07_prefetch_built_config / C07_prefetch_refuses_small_buffer (a built prefetch stage has 1 <= workers <= buffer) and 79 degenerate configurations with real threads: refused or within the bound.',
   note='Trusted as C04.', ref='7 C07'),
  'C10': dict(
-  text='Lean state machine of CacheDataset/_CacheWrapper over access histories with the memory oracle as input (Model/Cache.lean); theorems C10_transparent_once, C10_value_is_produced, C10_entries_frozen(_run), C10_negative_index, C10_after_latch, C10_latch_monotone, C10_hit_no_call for EVERY history. Correspondence: histories executed on the real class with psutil patched to follow the oracle, outputs + upstream call counts + stored keys diffed; oracle: model-free (first value, produced values, frozen entries).',
+  text='Lean state machine of CacheDataset/_CacheWrapper over access histories with the memory oracle as input (Model/Cache.lean); theorems C10_transparent_once, C10_value_is_produced, C10_entries_frozen(_run), C10_negative_index, C10_after_latch, C10_latch_monotone, C10_hit_no_call for EVERY history. Correspondence: histories executed on the real class with psutil patched to follow the oracle, outputs + upstream call counts + stored keys diffed; oracle: model-free (first value, produced values, frozen entries, nothing stored once an instance saw the threshold crossed; every spelling of the threshold; mutable examples modified by the consumer; a decoy cache with the same key names alive).',
   note='Trusted as C01. Racing threads on the SAME index are outside (prefetch workers address distinct indices); pickle fidelity is an assumption (C09).',
   ref='7 C10'),
  'C14': dict(
